@@ -80,7 +80,7 @@ def _runs_for(op, tier, aug=False):
     return out
 
 
-def shards(tier):
+def _shards_main(tier):
     out = []
     for op in R.ALL_OPS:
         lo, hi = R.doc_range(op)
@@ -461,7 +461,7 @@ def _run_arity(acc, only=None):
             _run_val_or_aug(acc, "val", op, ar, pool, -1)
 
 
-def run_shard(shard, tier):
+def _run_shard_main(shard, tier):
     acc = Acc()
     mode, op, ar, pool, extra = shard
     with warnings.catch_warnings():
@@ -497,7 +497,7 @@ def _check_documented_aggregators(acc):
                          sig="docagg:" + op, op=op)
 
 
-def recheck(case, tier):
+def _recheck_main(case, tier):
     acc = Acc()
     with warnings.catch_warnings():
         warnings.simplefilter("ignore")
@@ -537,3 +537,87 @@ def snippet(d):
             f"def show(t):\n    try: print(t())\n    except Exception as e: print(type(e).__name__, e)\n"
             f"show(lambda: hy_f({vals}))   # macro\nshow(lambda: f({vals}))      # documented Python expansion\n"
             f"show(lambda: getattr(hy.pyops, hy.mangle({c['op']!r}))({vals}))   # hy.pyops function\n")
+
+
+# ---------------------------------------------------------------- augmented assignment with #* among the extra arguments
+# (op= x a0 #* rest) must equal x op= AGG(a0, *rest): "augmented assignment with three or more arguments equals assignment of the
+# documented aggregator over the extra arguments", and a macro call containing #* falls back to the pyops function.
+AUGUNPACK_FORMS = {
+    "first+rest": "(setv f (fn [x a0 #* a] ({op}= x a0 #* a) x))",
+    "rest+last": "(setv f (fn [x a0 #* a] ({op}= x #* a a0) x))",
+}
+AUGUNPACK_VALUES = [0, 1, 2, -1, 1.5, "a"]
+
+
+def shards(tier):
+    return list(_shards_main(tier)) + [["augunpack", op] for op in R.AUG_OPS if R.OPS[op][4] and R.OPS[op][5] is not None]
+
+
+def _augunpack_case(acc, op, form, x, extras):
+    import itertools
+    ev = []
+    text = AUGUNPACK_FORMS[form].format(op=op)
+    case = {"mode": "augunpack", "op": op, "form": form, "x": x, "extras": list(extras), "text": text}
+    try:
+        f = _hy_fn(text, ev)
+    except Exception as e:
+        acc.outcome("compile-error")
+        acc.disagree("compile-failed", case, f"{text}: {type(e).__name__}: {e}", sig=f"compile:augunpack:{op}:{form}", op=op, exc=type(e).__name__)
+        return False
+    agg = _pyops(R.OPS[op][5])
+    binop = eval("lambda a, b: a " + R.OPS[op][0] + " b")
+
+    def expected():
+        try:
+            if form == "rest+last":
+                vals = list(extras[1:]) + [extras[0]]
+            else:
+                vals = list(extras)
+            # the form has >= 3 arguments syntactically, so the aggregator is applied to however many values arrive at run time
+            return "ok " + repr(binop(x, agg(*vals)))
+        except Exception as e:
+            return "exc " + type(e).__name__
+
+    def got():
+        try:
+            if form == "all-unpacked":
+                return "ok " + repr(f(x, *extras))
+            return "ok " + repr(f(x, extras[0], *extras[1:]))
+        except Exception as e:
+            return "exc " + type(e).__name__
+    e, g = expected(), got()
+    acc.states += 1
+    acc.transitions += 1
+    acc.traces += 1
+    acc.evaluations += 1
+    acc.nontrivial += 1
+    acc.outcome("augunpack:" + e.split(" ")[0])
+    if e != g:
+        acc.disagree("augassign-with-unpack-differs-from-documented-aggregator", case,
+                     f"{text} on x={x!r}, extras={list(extras)!r} gives {g}; x {op}= hy.pyops.{R.OPS[op][5]}(*extras) gives {e}",
+                     sig=f"augunpack:{op}:{form}", op=op, form=form)
+    return True
+
+
+def run_shard(shard, tier):
+    if shard[0] == "augunpack":
+        import itertools
+        acc = Acc()
+        op = shard[1]
+        for form in AUGUNPACK_FORMS:
+            for n in (1, 2, 3):
+                for extras in itertools.product(AUGUNPACK_VALUES[:4] if n == 3 else AUGUNPACK_VALUES, repeat=n):
+                    for x in (1, 2, 1.5, "a", (1,)):
+                        if not _augunpack_case(acc, op, form, x, extras):
+                            break
+            acc.sample({"hy": AUGUNPACK_FORMS[form].format(op=op)})
+        return acc.result()
+    return _run_shard_main(shard, tier)
+
+
+def recheck(case, tier):
+    if case.get("mode") == "augunpack":
+        acc = Acc()
+        _augunpack_case(acc, case["op"], case["form"], case["x"], tuple(case["extras"]))
+        return acc.disagreements
+    return _recheck_main(case, tier)
